@@ -152,7 +152,16 @@ TraceSetScores ==
         /\ Report(e, Failing({<<"C02.raised", e.exc = "">>,
                               <<"C02.state_after_rebinding_scores", e.exc # "" \/ ObjOfRec(e.post) = o>>}))
 
-Next == TraceNew \/ TraceThreshold \/ TraceThresholdEmpty \/ TraceThresholdBig \/ TraceSetConfig \/ TraceShiftScores \/ TraceSetScores
+(* history: copy.copy / copy.deepcopy / a pickle round trip of a live object gives an equal object *)
+TraceCopy ==
+  /\ IsEvent("Copy")
+  /\ LET e == Log[l]
+         o == store[e.h]
+     IN /\ store' = (e.h2 :> o) @@ store
+        /\ Report(e, Failing({<<"C02.raised", e.exc = "">>,
+                              <<"C02.copy_equals_source", e.exc # "" \/ ObjOfRec(e.post) = o>>}))
+
+Next == TraceNew \/ TraceThreshold \/ TraceThresholdEmpty \/ TraceThresholdBig \/ TraceSetConfig \/ TraceShiftScores \/ TraceSetScores \/ TraceCopy
 Spec == Init /\ [][Next]_vars
 AllConsumed == TLCGet("stats").diameter - 1 = Len(Log)
 =============================================================================
